@@ -42,19 +42,25 @@ def main():
     env = dict(os.environ, PYTHONPATH=os.path.join(wt, "src"))
     env.pop("BUMPVER_SRC", None)
     # 2. suite with the change
-    rc, out = sh("/venv/bin/python -m pytest -q -p no:cacheprovider 2>&1 | tail -3", cwd=wt, env=env)
+    rc, out = sh([os.path.join(VERIF, "tools", "baseline.sh"), wt], env=env)
     sh(["git", "-C", wt, "checkout", "README.md"])
-    m = re.search(r"(\d+) failed, (\d+) passed", out) or re.search(r"(\d+) passed", out)
-    suite = out.strip().splitlines()[-1] if out.strip() else "?"
-    suite_ok = "500 passed" in out and ("26 failed" in out)
+    suite = out.strip().splitlines()[0] if out.strip() else "?"
+    suite_ok = rc == 0
     # 3. demo with / without
     demo = os.path.join(wt, "seed_demo", "demo.py")
     rc_with, out_with = sh(["/venv/bin/python", demo], cwd=wt, env=env, timeout=900)
-    sh(["git", "-C", wt, "stash", "push", "--", "src"])
+    # NOTE: `git stash` is shared between worktrees - toggle the change with apply -R / apply instead
+    pfile = os.path.join(wt, "seed_demo", ".ingest.patch")
+    with open(pfile, "w") as f:
+        f.write(patch)
+    rcr, outr = sh(["git", "-C", wt, "apply", "-R", pfile])
+    assert rcr == 0, outr
     try:
         rc_without, out_without = sh(["/venv/bin/python", demo], cwd=wt, env=env, timeout=900)
     finally:
-        sh(["git", "-C", wt, "stash", "pop"])
+        rca, outa = sh(["git", "-C", wt, "apply", pfile])
+        assert rca == 0, outa
+        os.unlink(pfile)
     rc2, patch2 = sh(["git", "-C", wt, "diff", "--", "src"])
     assert patch2 == patch, "worktree change was not restored"
     # 4. our checks against the changed tree
